@@ -732,9 +732,151 @@ def items_alter(ctx):
     return items
 
 
+# =========================================================================== forge
+# Initial packets are protected with keys anybody on the path can derive (RFC 9001 5.2).  Once an endpoint
+# has discarded its Initial keys - the client when it first SENDS a Handshake packet, the server when it
+# first PROCESSES one (RFC 9001 4.9.1) - no Initial packet is authentic any more, in any version the
+# endpoint supports.  The forger builds such packets with the independent implementation.
+FORGE_PAYLOADS = (
+    ("CONNECTION_CLOSE", RQ.enc_frames([{"t": "CONNECTION_CLOSE", "app": False, "err": 0xA, "ftype": 0, "reason": b"forged"}])),
+    ("PING", RQ.enc_frames([{"t": "PING"}])),
+)
+
+
+class Forger(netsim.Monitor):
+    """Just before the `index`-th delivery: feed forged Initial packets to the receiver (if it is past
+    the point where Initial keys are discarded); nothing may happen."""
+
+    def __init__(self, world, index, sanity=False):
+        self.world, self.index, self.sanity = world, index, sanity
+        self.count = 0
+        self.fed = 0
+        self.hit = None
+        self.meta = None
+        self.hs_delivered_to_server = False
+        self.judged = False
+
+    def on_deliver(self, w, ep, d, addr):
+        i = self.count
+        self.count += 1
+        data = bytes(d.data)
+        pks = packets_of(data)
+        if i == self.index:
+            self._forge(w, ep, pks, addr)
+        if ep.name == "s" and any(p.type == "handshake" for p in pks):
+            self.hs_delivered_to_server = True
+
+    def _forge(self, w, ep, pks, addr):
+        conn = ep.conn
+        self.meta = dict(world=self.world, delivery=self.index, receiver=ep.name)
+        if ep.name == "c":
+            past = any(r.type == "handshake" for r in ep.sent_packets)
+        else:
+            past = self.hs_delivered_to_server
+        if self.sanity:
+            past = not past     # harness self-check: BEFORE the discard point such a packet must be taken
+        if not past or not pks:
+            return
+        self.judged = True
+        my_cid = pks[0].dcid                       # a connection ID of the receiver, as seen on the wire
+        sent = [r for r in ep.sent_packets if r.dcid]
+        peer_cid = sent[-1].dcid if sent else bytes(8)
+        base = fingerprint(conn)
+        for version in (V1, V2):
+            for odcid in w.obs.initial_dcids:
+                cs, ss = RQ.initial_secrets(version, odcid)
+                keys = RQ.Keys("aes128", ss if ep.name == "c" else cs, version)
+                for pname, payload in FORGE_PAYLOADS:
+                    for pn in (0, 7, 4000):
+                        pkt = RQ.build_long(version, "initial", my_cid, peer_cid, pn, 2, payload + bytes(1162 - len(payload)), keys)
+                        self.fed += 1
+                        desc = "forged %s Initial (pn %d, %s, keys from the public DCID %s)" % (
+                            "v1" if version == V1 else "v2", pn, pname, odcid.hex())
+                        try:
+                            conn.receive_datagram(pkt, addr, now=w.now)
+                        except Exception as e:  # noqa
+                            self.hit = (desc + ": receive_datagram raised %s: %s" % (type(e).__name__, e),
+                                        dict(monitor="forged_initial_raised", exc=type(e).__name__))
+                            return
+                        fp = fingerprint(conn)
+                        if fp != base:
+                            changed = [FP_NAMES[j] for j in range(len(fp)) if fp[j] != base[j]]
+                            evs = [type(e).__name__ for e in list(conn._events)[base[0]:]]
+                            self.hit = (desc + " changed: %s%s" % (", ".join(changed), (" (events %s)" % evs) if evs else ""),
+                                        dict(monitor="forged_initial_had_effect", version="v1" if version == V1 else "v2",
+                                             negotiated="v1" if conn._version == V1 else "v2",
+                                             effect=changed[0] if not evs else "event:" + evs[0]))
+                            return
+
+
+def work_forge(item):
+    from vlib import explore
+
+    acc = Acc()
+    world, lo, hi = item
+    deliveries, base_log, _ = baseline(world)
+    for index in range(lo, min(hi, len(deliveries))):
+        fg = Forger(world, index)
+        w = netsim.NetSim(dict(WORLDS[world]), SCRIPT, explore.Chooser([]), monitors=[fg], max_steps=400)
+        try:
+            outcome = w.run(_done)
+        except Exception as e:  # noqa
+            outcome = "exception %s: %s" % (type(e).__name__, e)
+        if fg.meta is None:
+            raise core.HarnessError("delivery %d of %s not reached: %s" % (index, world, outcome))
+        acc.n["forged_fed"] += fg.fed
+        acc.n["states_judged"] += bool(fg.judged)
+        acc.distinct.add(hash((world, index, fg.judged)))
+        rp = dict(part="forge", world=world, index=index)
+        sigbase = dict(part="forge", receiver=fg.meta["receiver"])
+        if fg.hit is not None:
+            desc, sig = fg.hit
+            acc.violation(dict(sigbase, **sig),
+                          "world %s, before delivery #%d, %s has discarded its Initial keys (RFC 9001 4.9.1): %s"
+                          % (world, index, "client" if fg.meta["receiver"] == "c" else "server", desc), rp, index)
+            continue
+        if not fg.judged:
+            continue
+        problem = ("run ended with %s" % outcome) if outcome != "done" else diff_logs(base_log, world_log(w))
+        if problem is not None:
+            acc.violation(dict(sigbase, monitor="genuine_packet_not_accepted_afterwards"),
+                          "world %s, delivery #%d to %s: after %d forged Initial packets (each without visible effect) the rest of the "
+                          "run no longer matches the baseline: %s" % (world, index, fg.meta["receiver"], fg.fed, problem), rp, index)
+    return acc
+
+
+def forge_selfcheck():
+    """The forged packets are well-formed: before the discard point the client takes them."""
+    from vlib import explore
+
+    deliveries, _, _ = baseline("v1-aes128")
+    index = next(i for i, x in enumerate(deliveries) if x[1] == "c")
+    fg = Forger("v1-aes128", index, sanity=True)
+    w = netsim.NetSim(dict(WORLDS["v1-aes128"]), SCRIPT, explore.Chooser([]), monitors=[fg], max_steps=400)
+    try:
+        w.run(_done)
+    except Exception:  # noqa
+        pass
+    if fg.hit is None or fg.hit[1].get("monitor") != "forged_initial_had_effect":
+        raise core.HarnessError("forge self-check: an Initial packet forged before the discard point was not taken (%r)" % (fg.hit,))
+
+
+def items_forge(ctx):
+    forge_selfcheck()
+    items = []
+    for world in (ALTER_WORLDS + ["v1-to-v2-compat"] if ctx.tier == "quick" else list(WORLDS)):
+        try:
+            deliveries, _, _ = baseline(world)
+        except BaselineFailed:
+            continue
+        for lo in range(0, len(deliveries), 4):
+            items.append((world, lo, lo + 4))
+    return items
+
+
 # =========================================================================== main
 PARTS = [("seal", items_seal, work_seal), ("public", items_public, work_public), ("pn", items_pn, work_pn),
-         ("alter", items_alter, work_alter)]
+         ("alter", items_alter, work_alter), ("forge", items_forge, work_forge)]
 
 
 def _dispatch(x):
@@ -769,7 +911,7 @@ def run(ctx):
             if n == name:
                 acc.merge(a)
                 n_items += 1
-        evals = sum(v for k, v in acc.n.items() if k in ("seal_pairs", "wire_packets", "fed_packets", "pn_cases", "mutants_fed"))
+        evals = sum(v for k, v in acc.n.items() if k in ("seal_pairs", "wire_packets", "fed_packets", "pn_cases", "mutants_fed", "forged_fed"))
         ctx.part(name, evaluations=evals, distinct_nontrivial=len(acc.distinct), work_items=n_items, **dict(acc.n))
         ctx.cov["parts"][name]["not_judged"] = dict(acc.notes)
         ctx.cov["parts"][name]["examples"] = acc.examples
@@ -791,7 +933,9 @@ def run(ctx):
         "connections opened by refquic from secrets_log_file with RFC labels, refquic packets into receive_datagram must yield the stream "
         "event; pn: decode_packet_number vs brute force; alter: every single-bit flip (thorough: every byte value) of every packet of every "
         "delivered datagram of the baseline runs, fed in the state just before it: fingerprint (events, tls.state, connection state, close) "
-        "unchanged, then the genuine datagram and the rest of the run reproduce the baseline event log and delivered bytes")
+        "unchanged, then the genuine datagram and the rest of the run reproduce the baseline event log and delivered bytes; forge: before "
+        "every delivery to an endpoint that is past the RFC 9001 4.9.1 discard point, Initial packets built from public information "
+        "(both versions x every original DCID seen on the wire x {CONNECTION_CLOSE, PING} x 3 packet numbers): same oracle")
     ctx.cov["exhaustive"] = not ctx.caps_hit and not ctx.only_parts
     ctx.cov["bounds"] = dict(worlds=ALTER_WORLDS if ctx.tier == "quick" else list(WORLDS), public_worlds=list(WORLDS), payload_grid="4..64, every 37th to the 1200 limit, the limit, "
                              "and header+payload+tag = 1500 (_crypto.c PACKET_LENGTH_MAX)", alteration=ctx.tier)
@@ -831,6 +975,8 @@ def replay(ctx, obj):
             mut, w, outcome = alter_run(rp["world"], rp["index"], rp["k"], rp["lo"], rp["hi"], rp["tier"], only=tuple(rp["only"]))
             print("  single mutant %r: fed=%d hit=%r outcome=%s" % (rp["only"], mut.fed, mut.hit, outcome))
         acc.merge(work_alter((rp["world"], rp["index"], rp["k"], rp["lo"], rp["hi"], rp["tier"])))
+    elif part == "forge":
+        acc.merge(work_forge((rp["world"], rp["index"], rp["index"] + 1)))
     want = core.stable_hash(obj["signature"])
     hit = False
     for k, (rank, sig, what, _) in sorted(acc.viol.items()):
